@@ -29,13 +29,22 @@ print(json.dumps(out))
 '''
 
 
-def gen_project(rng):
+def gen_project(rng, idx=None):
     same_module = rng.random() < 0.4
     in_pkg = rng.random() < 0.5
     uses_self = rng.random() < 0.6
     uses_import = rng.random() < 0.5
     uses_helper = rng.random() < 0.4
     params = rng.choice(["", "x", "x, y=2", "x, *rest", "x, y=2, **kw"])
+    # where the imported module is used: in the body, only on the def line (a default value), or in a
+    # one-line method whose whole body is on the def line
+    import_use = rng.choice(["body", "body", "default", "one_line"]) if uses_import else None
+    if idx is not None and idx % 3 != 2:
+        # every run moves methods whose def line alone uses the import, across modules
+        uses_import, same_module = True, False
+        import_use = ["default", "one_line"][idx % 3]
+        if import_use == "default" and ("*" in params):
+            params = "x"
     b_has_body = rng.random() < 0.5
     attr_in_init = rng.random() < 0.5
     files = {}
@@ -67,7 +76,12 @@ def gen_project(rng):
         lines += ["    def __init__(self):", "        self.attr = %s()" % bname, "        self.n = 3"]
     else:
         lines += ["    attr = %s()" % bname, "    n = 3"]
-    lines.append("    def meth(self%s):" % (", " + params if params else ""))
+    header_params = params
+    if import_use == "default":
+        header_params = (params + ", " if params else "") + "q=lib.val()" if "**" not in params and "*rest" not in params \
+            else params
+        if header_params == params:
+            import_use = "body"
     expr = "1"
     if "x" in params:
         expr += " + x"
@@ -80,11 +94,15 @@ def gen_project(rng):
     if uses_self:
         expr += " + self.n"
     if uses_import:
-        expr += " + lib.val()"
+        expr += " + q" if import_use == "default" else " + lib.val()"
     if uses_helper:
         expr = "helper(%s)" % expr
-    lines.append("        r = %s" % expr)
-    lines.append("        return r")
+    if import_use == "one_line":
+        lines.append("    def meth(self%s): return %s" % (", " + header_params if header_params else "", expr))
+    else:
+        lines.append("    def meth(self%s):" % (", " + header_params if header_params else ""))
+        lines.append("        r = %s" % expr)
+        lines.append("        return r")
     files[amod] = "".join(x + "\n" for x in lines)
     args = {"": "", "x": "5", "x, y=2": "5, y=4", "x, *rest": "5, 6, 7", "x, y=2, **kw": "5, z=1"}[params]
     files["entry.py"] = ("from %samod import A\n" % ("a." if in_pkg else "") +
@@ -92,6 +110,7 @@ def gen_project(rng):
     return {"files": files, "amod": amod,
             "features": {"same_module": same_module, "in_pkg": in_pkg, "uses_self": uses_self,
                          "uses_import": uses_import, "uses_helper": uses_helper, "params": params,
+                         "import_use": import_use,
                          "attr_in_init": attr_in_init}}
 
 
@@ -159,8 +178,8 @@ def replay(ctx, obj):
 
 def run(ctx):
     n = ctx.scale(10, 80)
-    for _ in range(n):
-        proj = gen_project(ctx.rng)
+    for pi in range(n):
+        proj = gen_project(ctx.rng, pi)
         raised, before, after, texts = run_one(proj)
         ctx.traces += 1
         ctx.case(("mm", json.dumps(proj["files"], sort_keys=True)), nontrivial=not raised)
